@@ -27,6 +27,7 @@ mod p15;
 mod p16;
 mod p17;
 mod p18;
+mod p19;
 mod p20;
 mod pipe;
 mod rows;
@@ -56,6 +57,7 @@ fn modules() -> Vec<Module> {
         ("C16", p16::run_all, p16::checks),
         ("C17", p17::run_all, p17::checks),
         ("C18", p18::run_all, p18::checks),
+        ("C19", p19::run_all, p19::checks),
         ("C20", p20::run_all, p20::checks),
     ]
 }
